@@ -66,6 +66,12 @@ fn units() -> Vec<(&'static str, &'static str, &'static str)> {
             "#[::entrait::entrait(pub @T@, no_deps, ?Send)]\npub async fn nfoo(x: u64) -> u64 { x + 5 }\n",
             "{ let app = ::entrait::Impl::new(App); crate::rt::block_on(<::entrait::Impl<App> as @T@>::nfoo(&app, 5)) }",
         ),
+        // the dependency's type parameter is mentioned again: the method gets a `Self: Sized` bound the user never wrote
+        (
+            "fn_deps_param_mentioned_again",
+            "#[::entrait::entrait(pub @T@)]\npub fn sfoo<D: ::core::any::Any>(_deps: &D, _other: &D, x: u64) -> u64 { x + 23 }\n",
+            "{ let app = ::entrait::Impl::new(App); <::entrait::Impl<App> as @T@>::sfoo(&app, &app, 5) }",
+        ),
         (
             "fn_concrete_deps",
             "pub struct Conf(pub u64);\n#[::entrait::entrait(pub @T@)]\npub fn cfoo(deps: &Conf, x: u64) -> u64 { deps.0 + x }\n",
